@@ -178,6 +178,10 @@ type c16World struct {
 	// per-node limit as written (-1 = key absent; the world's mn is then the documented default 2)
 	via    bool
 	declMn int
+	// ps: the paused stream — live jobs carry spec.paused in {false,true}: set at creation (1/4) and flipped later by somebody's
+	// spec Update whose Update event goes through the real arbitrationHandler.  Neither the arbitrator nor the property look at
+	// spec.paused: a paused job that is Running / passed keeps its reservation and its place in every budget
+	ps bool
 }
 
 var c16TmpDir string
@@ -511,6 +515,7 @@ func (w *c16World) mkJob(s *c16JobS) *v1alpha1.PodMigrationJob {
 type c16JobView struct {
 	id, pod, ns, uid, phase  int
 	ann, arb, waiting, stale bool
+	paused                   bool // spec.paused; deliberately NOT read by c16Live / counts / oracleRound
 }
 
 func (w *c16World) view() []c16JobView {
@@ -529,7 +534,7 @@ func (w *c16World) view() []c16JobView {
 		w.a.mu.Unlock()
 		out = append(out, c16JobView{id: id, pod: s.pod, ns: s.ns, uid: s.uid, phase: c16PhaseCode(j.Status.Phase),
 			ann: j.Annotations[AnnotationPassedArbitration] == "true", arb: w.a.filter.checkJobPassedArbitration(j.UID), waiting: waiting,
-			stale: w.stale[id]})
+			stale: w.stale[id], paused: j.Spec.Paused})
 	}
 	sort.Slice(out, func(a, b int) bool { return out[a].id < out[b].id })
 	return out
@@ -861,7 +866,7 @@ func TestVerifC16Arb(t *testing.T) {
 		if r == nil {
 			continue
 		}
-		c16ArbCase(h, r, idx%3 == 1, nil, false)
+		c16ArbCase(h, r, idx%3 == 1, nil, false, false)
 		h.End()
 	}
 	// exhaustive small-scope matrix of the duplicate rule: every PodRef shape x every job state, on a fixed cluster
@@ -872,7 +877,7 @@ func TestVerifC16Arb(t *testing.T) {
 		if r == nil {
 			continue
 		}
-		c16ArbCase(h, r, false, &c16Forced{shape: m % 5, state: m / 5}, false)
+		c16ArbCase(h, r, false, &c16Forced{shape: m % 5, state: m / 5}, false, false)
 		h.End()
 	}
 	// handler stream: tight limits, several waiting jobs of phase "" / Pending on distinct pods, every event through the
@@ -884,7 +889,20 @@ func TestVerifC16Arb(t *testing.T) {
 			continue
 		}
 		h.Tag("stream:handler")
-		c16ArbCase(h, r, false, nil, true)
+		c16ArbCase(h, r, false, nil, true, false)
+		h.End()
+	}
+	// paused stream: the set-up of the handler stream (tight limits, 3-6 waiting jobs) with spec.paused on live jobs: 1/4 of the
+	// jobs are created paused, and arbitrated jobs are paused / resumed later (spec Update + Update event through the real
+	// handler) between rounds and phase moves.  A paused job that is Running or has passed arbitration still fills its budgets
+	np := h.N(100, 1200)
+	for k := 0; k < np; k++ {
+		r := h.Begin(n + 5*4 + nh + k)
+		if r == nil {
+			continue
+		}
+		h.Tag("stream:paused")
+		c16ArbCase(h, r, false, nil, true, true)
 		h.End()
 	}
 	h.Close("one case = a cluster (5-10 pods over 3 nodes x 2 namespaces x 3 workloads with replicas in {1,3,5,8,12,20}; pod states: Ready / not Ready, terminating " +
@@ -903,6 +921,9 @@ func TestVerifC16Arb(t *testing.T) {
 		"then rounds / resyncs / phase moves (\"\" -> Pending -> Running -> terminal) / deletions. Every third case is the headroom stream: one workload of " +
 		"4-8 replicas, small maxUnavailable, 1-3 replicas unavailable in the different ways, waiting jobs on the others; in 1/4 of them exactly one of the two " +
 		"per-workload gates (MaxMigratingPerWorkload / MaxUnavailablePerWorkload) is skipped and the limit of the other one is set to 1-3. " +
+		"Paused stream (100 / 1200 extra cases): the set-up of the handler stream with spec.paused on live jobs — 1/4 of the jobs (created directly or after Filter) are created with " +
+		"spec.paused = true (op pause id 1 0) and arbitrated jobs are paused / resumed later by a spec Update whose Update event goes through the real handler (op pause id v 1), " +
+		"between rounds, phase moves towards Running, Filter calls, resyncs, deletions and a restart; the oracle's counts do not look at spec.paused (a paused Running / passed job fills its budgets). " +
 		"Non-trivial = some round both admitted a job and left one waiting")
 }
 
@@ -985,6 +1006,8 @@ func (w *c16World) createJobPhase(r *vRand, id, pod, ns, kind, shape, forcePhase
 	if passed {
 		j.Annotations = map[string]string{AnnotationPassedArbitration: "true"}
 	}
+	createdPaused := w.ps && r.Chance(1, 4)
+	j.Spec.Paused = createdPaused
 	if err := w.c.Create(ctx, j); err != nil {
 		panic(err)
 	}
@@ -999,12 +1022,16 @@ func (w *c16World) createJobPhase(r *vRand, id, pod, ns, kind, shape, forcePhase
 		w.hd.Create(ctx, event.CreateEvent{Object: j}, w.q) // the informer's Create event -> AddPodMigrationJob
 	}
 	w.h.Op("job %d %d %d %d %d %d %d %d", id, pod, ns, phase, vB(passed), vB(passed), vB(waiting), js.uid)
+	if createdPaused {
+		w.h.Op("pause %d 1 0", id) // created with spec.paused = true; no event besides the Create event
+		w.h.Tag(fmt.Sprintf("pause:created-paused,kind=%d", kind))
+	}
 }
 
 // c16Forced fixes cluster, configuration and op sequence of a case (the PodRef shape x job state matrix)
 type c16Forced struct{ shape, state int }
 
-func c16ArbCase(h *vHarness, r *vRand, headroom bool, fx *c16Forced, hs bool) {
+func c16ArbCase(h *vHarness, r *vRand, headroom bool, fx *c16Forced, hs bool, ps bool) {
 	pickLim := func() int {
 		switch r.Intn(7) {
 		case 0:
@@ -1131,6 +1158,7 @@ func c16ArbCase(h *vHarness, r *vRand, headroom bool, fx *c16Forced, hs bool) {
 	// get their MigrationControllerArgs through a configuration file and the start-up path instead of a Go literal
 	via := fx == nil && cfg.mmKind != 2 && cfg.muKind != 2 && (r.Chance(1, 3) || forceVia)
 	w := c16NewWorld(h, cfg, badStr, replicas, via)
+	w.ps = ps
 	if via {
 		h.Op("cfgvia")
 		h.Obs("%s", c16ShowArgs(w.a.filter.args))
@@ -1282,6 +1310,9 @@ func c16ArbCase(h *vHarness, r *vRand, headroom bool, fx *c16Forced, hs bool) {
 		if hs { // mostly rounds and the events around them
 			k = int(r.Pick([]int64{0, 3, 3, 7, 7, 7, 7, 7, 7, 13, 13, 16, 17, 20, 20, 21, 22, 22}))
 		}
+		if ps { // rounds, moves towards Running, pause / resume of arbitrated jobs, new jobs through Filter
+			k = int(r.Pick([]int64{0, 3, 3, 3, 7, 7, 7, 7, 7, 7, 13, 13, 16, 20, 21, 22, 22, 23, 23, 23, 23, 23}))
+		}
 		if fx != nil {
 			if s >= len(fxK) {
 				break
@@ -1356,10 +1387,16 @@ func c16ArbCase(h *vHarness, r *vRand, headroom bool, fx *c16Forced, hs bool) {
 			if ok {
 				w.jobs[id] = &c16JobS{id: id, pod: pod, ns: w.pods[pod].ns, uid: pod}
 				j := w.mkJob(w.jobs[id])
+				createdPaused := ps && r.Chance(1, 4)
+				j.Spec.Paused = createdPaused
 				if err := w.c.Create(ctx, j); err != nil {
 					panic(err)
 				}
 				w.hd.Create(ctx, event.CreateEvent{Object: j}, w.q)
+				if createdPaused {
+					h.Op("pause %d 1 0", id)
+					h.Tag("pause:created-paused,kind=filter")
+				}
 			}
 		case k < 13: // arbitration round
 			before := w.view()
@@ -1452,6 +1489,15 @@ func c16ArbCase(h *vHarness, r *vRand, headroom bool, fx *c16Forced, hs bool) {
 				wait = 3
 			}
 			h.Tag(fmt.Sprintf("round:stillwaiting=%d", wait))
+			if ps {
+				pl := 0
+				for _, j := range before {
+					if c16Live(j) && j.paused {
+						pl++
+					}
+				}
+				h.Tag(fmt.Sprintf("pause:round,paused-live-before=%d,stillwaiting=%d", c16Min(pl, 2), c16Min(wait, 1)))
+			}
 			if adm > 0 && wait > 0 {
 				admittedAndWaiting = true
 			}
@@ -1562,6 +1608,32 @@ func c16ArbCase(h *vHarness, r *vRand, headroom bool, fx *c16Forced, hs bool) {
 			w.hd.Update(ctx, event.UpdateEvent{ObjectNew: obj}, w.q)
 			h.Op("phase %d %d", j.id, np)
 			h.Tag(fmt.Sprintf("op:phase,from=%d,to=%d,waiting=%d", j.phase, np, vB(j.waiting)))
+			w.emitState(w.view())
+		case k == 23: // somebody pauses / resumes an arbitrated job (spec.paused flipped by a spec Update; the informer's Update event goes
+			// through the real handler).  The job keeps phase, annotation and reservation: it is still in every count.  Jobs that are
+			// still waiting are not touched (see k == 22)
+			var cand []c16JobView
+			anyPhase := r.Chance(1, 8)
+			for _, j := range w.view() {
+				if !j.waiting && (j.phase <= 2 || anyPhase) {
+					cand = append(cand, j)
+				}
+			}
+			if len(cand) == 0 {
+				continue
+			}
+			j := cand[r.Intn(len(cand))]
+			obj := &v1alpha1.PodMigrationJob{}
+			if err := w.c.Get(ctx, types.NamespacedName{Name: c16JobName(j.id)}, obj); err != nil {
+				panic(err)
+			}
+			obj.Spec.Paused = !obj.Spec.Paused
+			if err := w.c.Update(ctx, obj); err != nil {
+				panic(err)
+			}
+			w.echo(j.id)
+			h.Op("pause %d %d 1", j.id, vB(obj.Spec.Paused))
+			h.Tag(fmt.Sprintf("op:pause,to=%d,phase=%d,live=%d", vB(obj.Spec.Paused), j.phase, vB(c16Live(j))))
 			w.emitState(w.view())
 		default:
 			ids := podIDs()
